@@ -145,20 +145,21 @@ Proof.
 Qed.
 Print Assumptions C17_hypotheses_satisfiable.
 
-(* ---- case assembly with object identity (Model_C17 section 7) ---- *)
+(* ---- case assembly with object identity (Model_C17 section 7; the serializer half follows fix cedd1977) ---- *)
 
 (* The sequence [generate_one(strategy) for strategy in get_strategies_from_examples()] over a heap of dict
    objects - get_parameters_value on the container OBJECT of the combination, then serialize_components
-   writing into the object the case holds, one case after the other - equals the pure per-case value:
-   serializer applied ONCE to (example container merged with the draw), whatever the serializer, the draws,
-   the number of cases and the sharing of container objects between the combinations; the source objects keep
-   their contents; the containers of the cases are new and pairwise distinct objects. *)
-Theorem C17_cases_independent : forall draw ser h0 rcs,
+   building a new dict {**map_func(own), **generated} from the keys of the explicit container, one case after
+   the other - equals the pure per-case value (sval: the explicit keys of the merged container through the
+   serializer, the other keys as generated), whatever the serializer, the set of containers that have one,
+   the draws, the number of cases and the sharing of container objects between the combinations; the source
+   objects keep their contents; the containers of the cases are new and pairwise distinct objects. *)
+Theorem C17_cases_independent : forall draw smap ser h0 rcs,
   wf_refs h0 rcs = true -> all_drawn draw h0 0 rcs = true ->
-  wires CopyWhenDrawn draw ser h0 rcs = values_from draw ser h0 0 rcs /\
-  firstn (length h0) (fst (assemble CopyWhenDrawn draw ser h0 rcs)) = h0 /\
-  NoDup (case_addrs (snd (assemble CopyWhenDrawn draw ser h0 rcs))) /\
-  (forall a, In a (case_addrs (snd (assemble CopyWhenDrawn draw ser h0 rcs))) -> length h0 <= a).
+  wires CopyWhenDrawn SerExplicitOnly draw smap ser h0 rcs = values_from draw smap ser h0 0 rcs /\
+  firstn (length h0) (fst (assemble CopyWhenDrawn SerExplicitOnly draw smap ser h0 rcs)) = h0 /\
+  NoDup (case_addrs (snd (assemble CopyWhenDrawn SerExplicitOnly draw smap ser h0 rcs))) /\
+  (forall a, In a (case_addrs (snd (assemble CopyWhenDrawn SerExplicitOnly draw smap ser h0 rcs))) -> length h0 <= a).
 Proof. exact cases_independent. Qed.
 Print Assumptions C17_cases_independent.
 
@@ -170,53 +171,88 @@ Theorem C17_ref_combinations_sound : forall exs, containers_ok exs = true ->
 Proof. exact ref_combinations_sound. Qed.
 Print Assumptions C17_ref_combinations_sound.
 
-(* region nothing_to_fill (every parameter of every explicit container has an example): every case carries,
-   for every container, the example container serialized exactly once - in EVERY case of the sequence *)
-Theorem C17_serialized_once_partial : forall draw ser h0 rcs,
-  wf_refs h0 rcs = true -> nothing_to_fill draw h0 0 rcs = true ->
-  wires CopyWhenDrawn draw ser h0 rcs = examples_serialized_once ser h0 rcs.
-Proof. exact example_serialized_once_partial. Qed.
-Print Assumptions C17_serialized_once_partial.
+(* FULL since fix cedd1977 (was C17_serialized_once_partial on the region nothing_to_fill, refuted outside it
+   by finding F7): for ALL draws that honour the contract of the fill-in (fill_ok: something is drawn, its keys
+   are distinct and none is an explicit key - exclude = value.keys()), every case of the sequence carries, for
+   every container, the example container serialized exactly ONCE (ser1: the identity where the operation has
+   no serializer for the location) and the fill-in exactly as its strategy delivered it *)
+Theorem C17_serialized_once : forall draw smap ser h0 rcs,
+  wf_refs h0 rcs = true -> fill_ok draw h0 0 rcs = true ->
+  wires CopyWhenDrawn SerExplicitOnly draw smap ser h0 rcs = once_from draw smap ser 0 (map (deref h0) rcs).
+Proof. exact serialized_once. Qed.
+Print Assumptions C17_serialized_once.
+
+(* ... with the strategy of get_parameters_strategy, which maps the raw drawn object through the same style
+   serializer (draw_of_strategy): explicit values and generated values each pass through it once *)
+Theorem C17_fill_in_serialized_once : forall ser post raw smap h0 rcs,
+  wf_refs h0 rcs = true -> fill_ok (draw_of_strategy ser post raw) h0 0 rcs = true ->
+  wires CopyWhenDrawn SerExplicitOnly (draw_of_strategy ser post raw) smap ser h0 rcs =
+  once_from (fun idx c v => match raw idx c v with Some r => Some (post c (ser c r)) | None => None end)
+            smap ser 0 (map (deref h0) rcs).
+Proof. exact fill_in_serialized_once. Qed.
+Print Assumptions C17_fill_in_serialized_once.
 
 (* ... stated on example lists, through produce_combinations *)
-Theorem C17_examples_serialized_once_partial : forall exs draw ser, containers_ok exs = true ->
-  nothing_to_fill draw (fst (ref_combinations exs)) 0 (snd (ref_combinations exs)) = true ->
-  wires CopyWhenDrawn draw ser (fst (ref_combinations exs)) (snd (ref_combinations exs)) =
-  map (fun c => map (fun cd => (fst cd, Some (ser (fst cd) (snd cd)))) (containers c)) (produce_combinations exs).
+Theorem C17_examples_serialized_once : forall exs draw smap ser, containers_ok exs = true ->
+  fill_ok draw (fst (ref_combinations exs)) 0 (snd (ref_combinations exs)) = true ->
+  wires CopyWhenDrawn SerExplicitOnly draw smap ser (fst (ref_combinations exs)) (snd (ref_combinations exs)) =
+  once_from draw smap ser 0 (map containers (produce_combinations exs)).
 Proof. exact examples_once_end_to_end. Qed.
-Print Assumptions C17_examples_serialized_once_partial.
+Print Assumptions C17_examples_serialized_once.
 
-(* outside the region (finding F7): the fill-in strategy already maps the drawn object through the style
-   serializer, serialize_components applies it again to the merged container - the generated parameter goes out
-   serialized twice (witness: a = 5 explicit, b = 3 generated, matrix style: a = ;a=5 but b = ;b=;b=3) *)
-Theorem C17_serialized_once_refuted : exists ser post raw h0 rcs,
-  wf_refs h0 rcs = true /\ all_drawn (draw_of_strategy ser post raw) h0 0 rcs = true /\
-  wires CopyWhenDrawn (draw_of_strategy ser post raw) ser h0 rcs <> values_from raw ser h0 0 rcs.
-Proof. exact fill_in_serialized_once_refuted. Qed.
-Print Assumptions C17_serialized_once_refuted.
+(* SENTINEL rule, not the code (finding F7, fixed by cedd1977: setattr(case, container, map_func(value)) on the
+   whole merged container): the fill-in strategy already maps the drawn object through the style serializer,
+   the pre-fix serialize_components applied it again - the generated parameter goes out serialized twice
+   (witness: a = 5 explicit, b = 3 generated, matrix style: a = ;a=5 but b = ;b=;b=3); the rule of the code
+   serializes both once *)
+Theorem C17_whole_container_serializer_refuted : exists ser post raw h0 rcs,
+  wf_refs h0 rcs = true /\ fill_ok (draw_of_strategy ser post raw) h0 0 rcs = true /\
+  wires CopyWhenDrawn SerWholeContainer (draw_of_strategy ser post raw) smap_all ser h0 rcs
+    <> once_from (draw_of_strategy ser post raw) smap_all ser 0 (map (deref h0) rcs) /\
+  wires CopyWhenDrawn SerExplicitOnly (draw_of_strategy ser post raw) smap_all ser h0 rcs
+    = once_from (draw_of_strategy ser post raw) smap_all ser 0 (map (deref h0) rcs).
+Proof. exact whole_container_serializer_refuted. Qed.
+Print Assumptions C17_whole_container_serializer_refuted.
 
 (* SENTINEL rule, not the code (seed C17_c: if not new: return value): one path parameter with one example and
-   three body examples - the three cases hold ONE dict serialized three times, no case carries the example
-   serialized once, although the rule of the code does *)
+   three body examples - get_parameters_value hands the ONE object of the combination to the three cases (an
+   address below length of the source heap among the generated objects; never under the rule of the code).
+   Under the pre-fix serializer the three cases hold one dict serialized three times and no case carries the
+   example serialized once; the serializer of the code builds a new dict per case, so the wire is right again
+   and the sharing is visible only in the object identities *)
 Theorem C17_shared_container_refuted : exists exs ser draw,
   let hr := ref_combinations exs in
   wf_refs (fst hr) (snd hr) = true /\ nothing_to_fill draw (fst hr) 0 (snd hr) = true /\
-  wires ShareWhenNothingNew draw ser (fst hr) (snd hr) <> examples_serialized_once ser (fst hr) (snd hr) /\
-  wires CopyWhenDrawn draw ser (fst hr) (snd hr) = examples_serialized_once ser (fst hr) (snd hr) /\
-  ~ NoDup (case_addrs (snd (assemble ShareWhenNothingNew draw ser (fst hr) (snd hr)))).
+  (exists a, a < length (fst hr) /\
+     In a (case_addrs (gen_refs_from ShareWhenNothingNew SerExplicitOnly draw smap_all ser 0 (fst hr) (snd hr)))) /\
+  (forall a, In a (case_addrs (gen_refs_from CopyWhenDrawn SerExplicitOnly draw smap_all ser 0 (fst hr) (snd hr))) ->
+     length (fst hr) <= a) /\
+  wires ShareWhenNothingNew SerWholeContainer draw smap_all ser (fst hr) (snd hr) <> examples_serialized_once ser (fst hr) (snd hr) /\
+  wires CopyWhenDrawn SerWholeContainer draw smap_all ser (fst hr) (snd hr) = examples_serialized_once ser (fst hr) (snd hr) /\
+  ~ NoDup (case_addrs (snd (assemble ShareWhenNothingNew SerWholeContainer draw smap_all ser (fst hr) (snd hr)))) /\
+  wires ShareWhenNothingNew SerExplicitOnly draw smap_all ser (fst hr) (snd hr) = examples_serialized_once ser (fst hr) (snd hr) /\
+  wires CopyWhenDrawn SerExplicitOnly draw smap_all ser (fst hr) (snd hr) = examples_serialized_once ser (fst hr) (snd hr).
 Proof. exact shared_container_refuted. Qed.
 Print Assumptions C17_shared_container_refuted.
 
-(* non-vacuity: two parameter combinations cycled over three bodies *)
+(* non-vacuity: two parameter combinations cycled over three bodies; a fill-in next to the example (each
+   serialized once); without a serializer the case keeps the object get_parameters_value returned *)
 Theorem C17_assembly_hypotheses_satisfiable :
   let hr := ref_combinations exs_two in
   length (snd hr) = 3 /\ wf_refs (fst hr) (snd hr) = true /\
   all_drawn raw_fill_b (fst hr) 0 (snd hr) = true /\
+  fill_ok (draw_of_strategy ser_matrix post_id raw_fill_b) (fst hr) 0 (snd hr) = true /\
   nothing_to_fill draw_nothing (fst hr) 0 (snd hr) = true /\
-  wires CopyWhenDrawn draw_nothing ser_matrix (fst hr) (snd hr) =
+  wires CopyWhenDrawn SerExplicitOnly draw_nothing smap_all ser_matrix (fst hr) (snd hr) =
     [[(s_path_parameters, Some [(s_id, JStr [59;105;100;61;53]%N)])];
      [(s_path_parameters, Some [(s_id, JStr [59;105;100;61;54]%N)])];
-     [(s_path_parameters, Some [(s_id, JStr [59;105;100;61;53]%N)])]].
+     [(s_path_parameters, Some [(s_id, JStr [59;105;100;61;53]%N)])]] /\
+  wires CopyWhenDrawn SerExplicitOnly (draw_of_strategy ser_matrix post_id raw_fill_b) smap_all ser_matrix (fst hr) (snd hr) =
+    [[(s_path_parameters, Some [(s_id, JStr [59;105;100;61;53]%N); (s_b, JStr [59;98;61;51]%N)])];
+     [(s_path_parameters, Some [(s_id, JStr [59;105;100;61;54]%N); (s_b, JStr [59;98;61;51]%N)])];
+     [(s_path_parameters, Some [(s_id, JStr [59;105;100;61;53]%N); (s_b, JStr [59;98;61;51]%N)])]] /\
+  snd (assemble CopyWhenDrawn SerExplicitOnly draw_nothing (smap_of []) ser_matrix (fst hr) (snd hr)) =
+    gen_refs_from CopyWhenDrawn SerExplicitOnly draw_nothing (smap_of []) ser_matrix 0 (fst hr) (snd hr).
 Proof. exact assembly_hypotheses_satisfiable. Qed.
 Print Assumptions C17_assembly_hypotheses_satisfiable.
 
